@@ -120,9 +120,9 @@ AS_ASSUME = ['mailbox policy (system first, user only when not paused, one handl
 for _pid, _only, _must in [
     ('C03', r'LOST-USER-MESSAGE|AFTER-STOP|ended twice|PANIC|LOST WAKE-UP|FATAL', ['ev:dead-letter', 'stash:dec1:hooks0', 'stash:dec1:hooks1', 'stash:dec2', 'stash:dec3', 'stash:dec5', 'stash:deck']),
     ('C05', r'LIFECYCLE|LAUNCH-TWICE|RESTART-NO-LAUNCH|STALE-INSTANCE|PANIC|FATAL', ['ev:restarted', 'ev:zombie', 'ev:spawn-err:prelaunch']),
-    ('C06', r'KILL-ONCE|CHILDREN-FIRST|NOT-RELEASED|HALF-STOPPED|JOB-SURVIVES-OWNER|PANIC|FATAL', ['ev:killed-event', 'ev:spawn-err:exists', 'ev:spawn-err:dead']),
+    ('C06', r'KILL-ONCE|CHILDREN-FIRST|NOT-RELEASED|HALF-STOPPED|JOB-SURVIVES-OWNER|PANIC|FATAL', ['ev:killed-event', 'ev:spawn-err:exists', 'ev:spawn-err:dead', 'killvs:kill-first', 'killvs:directive-first', 'killvs:dec1:kill-first', 'killvs:dec1:directive-first', 'killvs:dec2:directive-first']),
     ('C08', r'DECIDE-TWICE|SUPERVISION-WHILE-STOPPING|STAYS-PAUSED|HALF-STOPPED|PANIC|FATAL', ['ev:decide:1', 'ev:decide:2', 'ev:decide:3', 'ev:decide:4', 'ev:decide:5', 'ev:decide:6', 'matrix:', 'escal:kindM1:depth1', 'escal:kindM2:depth1', 'escal:kindM2:depth2']),
-    ('C09', r'STAYS-PAUSED|HALF-STOPPED|NO-ANSWER|ZOMBIE-RUNS-USER-CODE|PANIC|FATAL', ['ev:restarted', 'ev:zombie', 'ev:decide:5', 'ev:decide:2', 'ev:decide:4', 'escal:kindM1:depth1', 'escal:kindM2:depth1', 'escal:kindM2:depth2', 'escal:dec5', 'escal:dec4', 'escal:dec2']),
+    ('C09', r'STAYS-PAUSED|HALF-STOPPED|NO-ANSWER|ZOMBIE-RUNS-USER-CODE|PANIC|FATAL', ['ev:restarted', 'ev:zombie', 'ev:decide:5', 'ev:decide:2', 'ev:decide:4', 'escal:kindM1:depth1', 'escal:kindM2:depth1', 'escal:kindM2:depth2', 'escal:dec5', 'escal:dec4', 'escal:dec2', 'killvs:kill-first', 'killvs:directive-first', 'killvs:dec1:kill-first', 'killvs:dec1:directive-first', 'killvs:dec2:directive-first']),
     ('C19', r'ES-TABLES|EVENT-TWICE|EVENT-NOT-SUBSCRIBED|EVENT-MISSED|PANIC|FATAL', ['ev:es-sub', 'ev:es-unsub', 'ev:es-unsuball', 'ev:es-pub-with-subscribers']),
 ]:
     PROPS[_pid] = dict(
@@ -139,7 +139,7 @@ PROPS['C05']['modules'] = ['Vivid.Props.C05', 'Vivid.Props.M10Global']
 # C05 also owns the launch-order probe: the enqueue of a system message as a scheduling point while actors are spawned
 PROPS['C05']['engines'].append(dict(name='launchorder', nomodel=True, must_hit=['variant:0', 'variant:2', 'variant:5', 'variant:7']))
 PROPS['C19']['modules'] = ['Vivid.Props.C19', 'Vivid.Props.C19C20Global']
-PROPS['C09']['modules'] = ['Vivid.Props.C09', 'Vivid.Props.C09Global']
+PROPS['C09']['modules'] = ['Vivid.Props.C09', 'Vivid.Props.C09Global', 'Vivid.Props.C09Graceful']
 PROPS['C08']['modules'] = ['Vivid.Props.C08', 'Vivid.Props.C08Frame']
 PROPS['C03']['modules'] = ['Vivid.Props.C03', 'Vivid.Props.C03Global', 'Vivid.Props.C03Exact', 'Vivid.Props.C09Global']
 PROPS['C06']['engines'].append(dict(name='killorder', nomodel=True, only=r'NOT-RELEASED|CHILDREN-FIRST|HARNESS|PANIC|FATAL', must_hit=['variant:0', 'variant:3', 'variant:7', 'variant:15']))
